@@ -131,7 +131,11 @@ func genCompositeVal(t *rapid.T) Val {
 		default:
 			e = Val{K: "bool", B: rapid.Bool().Draw(t, "pb")}
 		}
-		return Val{K: "ptr", Depth: rapid.IntRange(1, 3).Draw(t, "pdepth"), Elems: []Val{e}}
+		depth := rapid.IntRange(1, 3).Draw(t, "pdepth")
+		if rapid.IntRange(0, 5).Draw(t, "deepptr?") == 0 {
+			depth = rapid.IntRange(4, 20).Draw(t, "deepptr")
+		}
+		return Val{K: "ptr", Depth: depth, Elems: []Val{e}}
 	}
 }
 
